@@ -131,3 +131,14 @@ def check(ctx):
               "a transient failure blocks the destination for the rest of the pass", "")
     tx = G.own_method("transmit")
     ctx.check("self.txPkts.append(" in src(tx) and "appendleft" not in src(tx), "T2-drain", tx, "transmit queues at the tail", "")
+    # the re-queue of the deferred packets closes the pass: nothing is sent after it (a second round in the same pass has no
+    # per-destination blocking of its own: the second of two packets to a destination that fails twice overtakes the first)
+    ctx.rule("T2-final", "GramStack.serviceTxPkts: no send (_serviceOneTxPkt / serviceTxPktsOnce / handler.send) after the re-queue of laters")
+    sp = G.own_method("serviceTxPkts")
+    SP = FuncView(ctx, sp)
+    back = [n for n, c in SP.calls(("self.txPkts.append", "self.txPkts.extend", "self.txPkts.appendleft", "self.txPkts.extendleft"))]
+    SP.need(back, "re-queue of deferred packets in serviceTxPkts")
+    later = [n for n, c in SP.calls(("self._serviceOneTxPkt", "self.serviceTxPktsOnce", "self.handler.send", "self.serviceTxPkts"))
+             if any(n.id in SP.cfg.reachable(b.id) for b in back)]
+    ctx.check(not later, "T2-final", later[0].ast if later else sp, "serviceTxPkts ends with the re-queue of the deferred packets",
+              "packets sent after the re-queue are outside the pass's blocked-destination bookkeeping: per-destination order is lost")
